@@ -66,6 +66,8 @@ type FnCtx struct {
 	locksTouched map[string]bool
 	reachableReturns int
 	exercised map[*AtCall]bool
+	readLog   *[]string
+	readSeen  map[string]string
 }
 
 type callFrame struct {
